@@ -715,6 +715,18 @@ def connection_corpus():
         out.append(dict(ops=[["open", 0], ["pump"], ["ws_closing", 0]] + st + [["api", 0, "send", "00"], ["drop", 0], ["open", 0], ["pump"],
                                                                            ["api", 0, "close"], ["pump"]] + end, npeers=0,
                         profile="conn:code-and-send-in-closing-window:" + name))
+    # the code-entry helper keeps being used after the wormhole has closed ITSELF (welcome error, server error, failed
+    # first connection): every helper call must still behave (documented errors only)
+    helper_calls = [["api", 0, "refresh_nameplates"], ["api", 0, "get_nameplate_completions", ""], ["api", 0, "choose_nameplate", "4"],
+                    ["api", 0, "refresh_nameplates"], ["api", 0, "get_word_completions", "pur"], ["api", 0, "choose_words", "purple-sausages"]]
+    causes = {"welcome-error": [["server_welcome_error", "please upgrade"], ["open", 0], ["pump"]],
+              "server-error": [["open", 0], ["pump"], ["inject_frame", 0, {"type": "error", "error": "refused", "orig": {"type": "list"}}, False], ["pump"]],
+              "fail-initial": [["fail_initial", 0]],
+              "handshake-fails": [["tcp_up", 0], ["ws_fail", 0]]}
+    for cname, cops in causes.items():
+        for k in (0, 2, 3):
+            out.append(dict(ops=[["api", 0, "input_code"]] + helper_calls[:k] + cops + [["svc_stopped", 0], ["pump"]] + helper_calls[k:]
+                            + [["finish"], ["api", 0, "close"], ["finish"]], npeers=0, profile="conn:helper-after-self-close:%s:%d" % (cname, k)))
     both = [["api", 0, "set_code", code], ["api", 1, "set_code", code], ["open", 0], ["open", 1], ["pump"]]
     out.append(dict(ops=both + [["ws_closing", 0], ["api", 0, "send", "00"], ["api", 0, "send", "0101"], ["drop", 0], ["open", 0], ["pump"],
                                 ["api", 0, "send", "020202"], ["pump"], ["api", 0, "close"], ["pump"], ["svc_stopped", 0], ["finish"]],
